@@ -200,6 +200,21 @@ fn ms(_env: &Env) -> u128 {
   rzmq::verif::elapsed_ms()
 }
 
+/// endpoint and peer address of a monitor event, as JSON fields (monitor conformance, Monitor.tla)
+fn ev_detail(ev: &rzmq::socket::SocketEvent) -> String {
+  use rzmq::socket::SocketEvent as E;
+  let (ep, peer) = match ev {
+    E::Listening { endpoint } | E::Closed { endpoint } | E::Disconnected { endpoint } | E::HandshakeSucceeded { endpoint }
+    | E::ConnectionCongested { endpoint } | E::ConnectionUncongested { endpoint } => (endpoint.clone(), String::new()),
+    E::BindFailed { endpoint, .. } | E::AcceptFailed { endpoint, .. } | E::ConnectDelayed { endpoint, .. } | E::ConnectFailed { endpoint, .. }
+    | E::HandshakeFailed { endpoint, .. } | E::ConnectRetried { endpoint, .. } => (endpoint.clone(), String::new()),
+    E::Accepted { endpoint, peer_addr } | E::Connected { endpoint, peer_addr } => (endpoint.clone(), peer_addr.clone()),
+    _ => (String::new(), String::new()),
+  };
+  let clean = |x: String| x.replace('\\', "/").replace('"', "'");
+  format!("\"endpoint\":\"{}\",\"peer\":\"{}\"", clean(ep), clean(peer))
+}
+
 fn res_str<T>(r: &Result<T, ZmqError>) -> String {
   match r {
     Ok(_) => "ok".into(),
@@ -548,7 +563,7 @@ async fn run_op(env: Arc<Env>, task: String, op: Value) {
           match tokio::time::timeout(deadline - Instant::now(), m.recv()).await {
             Ok(Ok(ev)) => {
               let txt = format!("{:?}", ev);
-              rec(&task, "event", format!("\"sock\":\"{}\",\"event\":\"{}\",\"t\":{}", sname, txt.split(|c: char| c == ' ' || c == '{').next().unwrap_or(""), ms(&env)));
+              rec(&task, "event", format!("\"sock\":\"{}\",\"event\":\"{}\",{},\"t\":{}", sname, txt.split(|c: char| c == ' ' || c == '{').next().unwrap_or(""), ev_detail(&ev), ms(&env)));
               if txt.contains(&kind) {
                 seen = true;
                 break;
@@ -572,7 +587,7 @@ async fn run_op(env: Arc<Env>, task: String, op: Value) {
           }
           let txt = format!("{:?}", ev);
           let ivl = if let rzmq::socket::SocketEvent::ConnectRetried { interval, .. } = &ev { interval.as_millis() as i64 } else { -1 };
-          rec(&task, "event", format!("\"sock\":\"{}\",\"event\":\"{}\",\"interval_ms\":{},\"t\":{}", sname, txt.split(|c: char| c == ' ' || c == '{').next().unwrap_or(""), ivl, ms(&env)));
+          rec(&task, "event", format!("\"sock\":\"{}\",\"event\":\"{}\",\"interval_ms\":{},{},\"t\":{}", sname, txt.split(|c: char| c == ' ' || c == '{').next().unwrap_or(""), ivl, ev_detail(&ev), ms(&env)));
         }
       }
     }
